@@ -1,6 +1,7 @@
 """C14 -- aa-log shows every matching AppArmor event exactly once, and only those.
 
-In-process (engine/gox/cmd/c14x): every sequence of <= 3 (thorough 4) records over a 17-record alphabet (file
+In-process (engine/gox/cmd/c14x): every sequence of <= 2 (thorough 3) records over a 21-record alphabet and every
+sequence of 3 (thorough 4) records over a 12-record alphabet (file
 DENIED/ALLOWED/AUDIT, user-space dbus, net, cap, signal, STATUS, foreign, blank, garbled, 70 KiB foreign and
 AppArmor lines, exact duplicate up to timestamp+pid, near duplicate, noise path, extra keys) x 3 carriers
 (audit, syslog, journald JSON) x 4 filters through the real logs.New / GetJournalctlLogs, compared with a
@@ -78,7 +79,9 @@ def run(tier):
     L = 4 if tier == 'thorough' else 3
     reduced = 'file-denied,child-profile,dotted-profile,dotless-profile,file-allowed,dbus,status,garbled,long-foreign,dup-of-file-denied,near-dup-of-file-denied,extra-keys'
     if tier == 'thorough':
-        jobs = [['-len', '4', '-shard', str(i), '-of', '21'] for i in range(21)]
+        # thorough: every sequence of <= 3 records over the whole alphabet, every 4-sequence over the 12-record alphabet
+        jobs = [['-len', '3', '-shard', str(i), '-of', '21'] for i in range(21)]
+        jobs += [['-minlen', '4', '-len', '4', '-only', reduced, '-shard', str(i), '-of', '12'] for i in range(12)]
     else:
         # quick: every sequence of <= 2 records over the whole alphabet, every triple over a 9-record alphabet
         jobs = [['-len', '2', '-shard', str(i), '-of', '21'] for i in range(21)]
